@@ -110,7 +110,7 @@ def gen_history(rng, hid):
             run(rng.choice([370, 1130, 1930]))
             foreign()
         if scenario == "verify":
-            both(calls=[{"op": "verify", "name": dnsgen.dotted(inst).decode(), "timeout": rng.choice([1500, 3000])}])
+            both(calls=[{"op": "verify", "name": dnsgen.dotted(inst).decode(), "timeout": rng.choice([300, 800, 1000, 1500, 3000])}])
         if rng.random() < 0.3:
             both(dgrams=[_dg(_resp([(ty, 12, 1, 0, dnsgen.rd_ptr(inst))]))])   # goodbye
         run(int(1000 * max(ttl_host, min(ttl_other, 25)) * 1.2) + 3000)
